@@ -15,6 +15,7 @@ import (
 	"errors"
 	"fmt"
 	"log/slog"
+	"math"
 	"os"
 	"runtime"
 	"sort"
@@ -163,7 +164,11 @@ func lgParseSeg(body []byte) (int64, int64, []map[string]any) {
 		if cnt <= 0 || pos+sz > end {
 			break
 		}
-		bs = append(bs, map[string]any{"id": []any{fmt.Sprintf("p%d", b[61]), int(b[62])}, "base": int64(binary.BigEndian.Uint64(b[0:8])), "cnt": cnt})
+		span := int64(int32(binary.BigEndian.Uint32(b[23:27]))) + 1 // offsets the batch claims (lastOffsetDelta + 1)
+		if span < 1 {
+			span = int64(cnt)
+		}
+		bs = append(bs, map[string]any{"id": []any{fmt.Sprintf("p%d", b[61]), int(b[62])}, "base": int64(binary.BigEndian.Uint64(b[0:8])), "cnt": span})
 		pos += sz
 	}
 	return base, last, bs
@@ -366,10 +371,21 @@ func lgOne(pidx, k, n int, lod int32) []byte {
 	return b
 }
 
+// lgSpan is the number of offsets a stored batch claims: lastOffsetDelta + 1 (its record count when the delta is malformed).
+func lgSpan(b []byte) int64 {
+	span := int64(int32(binary.BigEndian.Uint32(b[23:27]))) + 1
+	if span < 1 {
+		span = int64(int32(binary.BigEndian.Uint32(b[57:61])))
+	}
+	return span
+}
+
 func lgBatch(pidx, k, n int, kind string) []byte {
 	switch kind {
 	case "neglod":
 		return lgOne(pidx, k, n, -2)
+	case "maxlod":
+		return lgOne(pidx, k, n, math.MaxInt32)
 	case "concat":
 		return append(lgOne(pidx, k, n, int32(n-1)), lgOne(pidx, k+100, n, int32(n-1))...)
 	default:
@@ -523,7 +539,7 @@ func lgRunSchedule(t *testing.T, sc lgSched) (lines []map[string]any, hits map[s
 				}
 				starts = append(starts, base)
 				pos += len(b)
-				base += int64(int32(binary.BigEndian.Uint32(b[57:61])))
+				base += lgSpan(b)
 			}
 			out["starts"] = starts
 			return out
@@ -551,7 +567,7 @@ func lgRunSchedule(t *testing.T, sc lgSched) (lines []map[string]any, hits map[s
 			addRange := func(lo, hi int64) {
 				for b, bytes := range ref {
 					if b >= lo && b <= hi {
-						refl = append(refl, []int64{b, int64(int32(binary.BigEndian.Uint32(bytes[57:61])))})
+						refl = append(refl, []int64{b, lgSpan(bytes)})
 					}
 				}
 			}
@@ -567,7 +583,26 @@ func lgRunSchedule(t *testing.T, sc lgSched) (lines []map[string]any, hits map[s
 			refMu.Unlock()
 			sort.Slice(refl, func(i, j int) bool { return refl[i][0] < refl[j][0] })
 			reads := []map[string]any{}
-			for o := int64(0); o < st.Next; o++ {
+			// offsets to read: every offset that holds a record, plus the last offset each batch claims
+			var offs []int64
+			seenOff := map[int64]bool{}
+			refMu.Lock()
+			for _, rb := range refl {
+				recs := int64(int32(binary.BigEndian.Uint32(ref[rb[0]][57:61])))
+				for d := int64(0); d < recs; d++ {
+					if !seenOff[rb[0]+d] {
+						seenOff[rb[0]+d] = true
+						offs = append(offs, rb[0]+d)
+					}
+				}
+				if last := rb[0] + rb[1] - 1; !seenOff[last] {
+					seenOff[last] = true
+					offs = append(offs, last)
+				}
+			}
+			refMu.Unlock()
+			sort.Slice(offs, func(i, j int) bool { return offs[i] < offs[j] })
+			for _, o := range offs {
 				for _, mb := range sc.MBs {
 					res, err := func() (res []byte, err error) {
 						defer func() {
@@ -592,7 +627,7 @@ func lgRunSchedule(t *testing.T, sc lgSched) (lines []map[string]any, hits map[s
 			}
 			// the consumer's view: real Fetch requests through the handler (bounded by the high watermark it reports)
 			fetches := []map[string]any{}
-			for o := int64(0); o <= st.Next; o++ {
+			for _, o := range append(append([]int64{}, offs...), st.Next) {
 				req := kmsg.NewPtrFetchRequest()
 				req.Version, req.ReplicaID, req.MaxWaitMillis, req.MinBytes, req.MaxBytes = 11, -1, 0, 0, 1<<20
 				ft := kmsg.NewFetchRequestTopic()
@@ -716,7 +751,11 @@ func lgRunSchedule(t *testing.T, sc lgSched) (lines []map[string]any, hits map[s
 					r.emit(map[string]any{"src": "client", "ev": "Err", "p": p, "k": k, "code": int(pr.ErrorCode), "n": n, "kind": kind})
 					return
 				}
-				r.emit(map[string]any{"src": "client", "ev": "Ack", "p": p, "k": k, "base": pr.BaseOffset, "cnt": n, "kind": kind})
+				span := int64(n)
+				if kind == "maxlod" {
+					span = int64(math.MaxInt32) + 1
+				}
+				r.emit(map[string]any{"src": "client", "ev": "Ack", "p": p, "k": k, "base": pr.BaseOffset, "cnt": span, "kind": kind})
 			}()
 		}
 
@@ -982,6 +1021,49 @@ func lgRunSchedule(t *testing.T, sc lgSched) (lines []map[string]any, hits map[s
 	return r.lines, r.hit
 }
 
+// lgFold rewrites every integer x = j*2^31 + s (|s| < 2^30, j >= 1) in a trace line as j*2^20 + s: TLC integers are 32-bit, and
+// offsets this large only arise from a batch with lastOffsetDelta = 2^31-1 (model: BigLod = 2^20-1). The map is order-preserving and
+// injective as long as the low parts stay below 2^20, which holds for the handful of records a schedule produces.
+func lgFold(line []byte) []byte {
+	dec := json.NewDecoder(strings.NewReader(string(line)))
+	dec.UseNumber()
+	var v any
+	if err := dec.Decode(&v); err != nil {
+		return line
+	}
+	var walk func(any) any
+	walk = func(x any) any {
+		switch y := x.(type) {
+		case map[string]any:
+			for k, e := range y {
+				y[k] = walk(e)
+			}
+			return y
+		case []any:
+			for i, e := range y {
+				y[i] = walk(e)
+			}
+			return y
+		case json.Number:
+			if n, err := y.Int64(); err == nil {
+				if n >= 1<<30 { // x = j*2^31 + s with |s| < 2^30  ->  j*2^20 + s
+					j := (n + 1<<30) >> 31
+					return n - j*(1<<31-1<<20)
+				}
+				return n
+			}
+			return y
+		default:
+			return x
+		}
+	}
+	out, err := json.Marshal(walk(v))
+	if err != nil {
+		return line
+	}
+	return out
+}
+
 func TestVerifLogReplay(t *testing.T) {
 	in, outPath := os.Getenv("VERIF_SCHEDULES"), os.Getenv("VERIF_TRACE_OUT")
 	if in == "" || outPath == "" {
@@ -1017,7 +1099,7 @@ func TestVerifLogReplay(t *testing.T) {
 		w.WriteByte('\n')
 		for _, m := range lines {
 			enc, _ := json.Marshal(m)
-			w.Write(enc)
+			w.Write(lgFold(enc))
 			w.WriteByte('\n')
 		}
 		n++
